@@ -492,6 +492,29 @@ class LoopMixin:
                 except Exception:
                     continue
                 eqs.append((dk, ki, ks))
+        # ... and two integers whose difference is fixed on entry keep that difference (start/end cursor pairs)
+        diffs = []
+        ikeys = [k for k in keys if isinstance(gens[k].value, IntV) and isinstance(self.resolve(pre[k]) if pre[k] is not None else None, IntV)
+                 and k[0] in ('local', 'attr')]
+        for a in range(len(ikeys)):
+            for b in range(a + 1, len(ikeys)):
+                ka, kb = ikeys[a], ikeys[b]
+                ga, gb = gens[ka].value, gens[kb].value
+                d = self.store.canon(self.resolve(pre[ka]).lin - self.resolve(pre[kb]).lin)
+                if not d.is_const():
+                    continue
+                dk = (id(st), ka[:2], 'diff:' + repr(kb[:2]))
+                if self.an.widen.get(dk) or self.store.decide_eq0(ga.lin - gb.lin - d) is True:
+                    continue
+                if len(ga.lin.syms()) != 1 or len(gb.lin.syms()) != 1:
+                    continue
+                try:
+                    self.store.assume_eq0(ga.lin - gb.lin - d)
+                except Exception:
+                    continue
+                diffs.append((dk, ka, kb, d))
+        self._diff_candidates = getattr(self, '_diff_candidates', {})
+        self._diff_candidates[id(st)] = diffs
         self._eq_candidates = getattr(self, '_eq_candidates', {})
         self._eq_candidates[id(st)] = eqs
         hook = self.an.hooks.get('loop_head')
@@ -505,6 +528,10 @@ class LoopMixin:
         post = {k: self._read_key(k) for k in keys}
         for k in keys:
             gens[k].check(post[k])
+        for dk, ka, kb, d in getattr(self, '_diff_candidates', {}).get(id(st), ()):
+            a, b = self.resolve(post.get(ka)), self.resolve(post.get(kb))
+            if not (isinstance(a, IntV) and isinstance(b, IntV) and self.store.decide_eq0(a.lin - b.lin - d) is True):
+                self.an.widen_requests[dk] = 1
         for dk, ki, ks in getattr(self, '_eq_candidates', {}).get(id(st), ()):
             a, b = self.resolve(post.get(ki)), self.resolve(post.get(ks))
             if not (isinstance(a, IntV) and isinstance(b, SeqV) and self.store.decide_eq0(a.lin - b.length()) is True):
@@ -606,6 +633,48 @@ class LoopMixin:
             return SymV(self.fresh('elem'), 'elem', origin=itv, tags=value_tags(itv)), None
         self.note_unknown(node, f'iteration over {itv!r}')
         return UnkV('elem'), None
+
+    def generator_as_iter(self, g, node=None):
+        """A generator function of the shape  [assignments]; for t in it: [straight line]; yield e  as a generic iterable
+        (element = e for the generic element of `it`), like a generator expression; None for any other shape."""
+        body = [st for st in g.fi.node.body if not (isinstance(st, ast.Expr) and isinstance(st.value, ast.Constant))]
+        if not body or not isinstance(body[-1], ast.For) or body[-1].orelse:
+            return None
+        pre, loop = body[:-1], body[-1]
+        if not (loop.body and isinstance(loop.body[-1], ast.Expr) and isinstance(loop.body[-1].value, ast.Yield)
+                and loop.body[-1].value.value is not None):
+            return None
+        inner = loop.body[:-1]
+        for n in ast.walk(ast.Module(body=pre + inner, type_ignores=[])):
+            if isinstance(n, (ast.Yield, ast.YieldFrom, ast.Return, ast.For, ast.While, ast.Break, ast.Continue, ast.If, ast.Try)):
+                return None
+        from .interp import Frame
+        frame = Frame(g.fi, g.fi.module, g.self_obj, g.fi.cls)
+        frame.cls_obj = g.cls_obj
+        frame.closure = g.closure
+        self._bind_params(g.fi, frame, list(g.args), dict(g.kwargs), g.self_obj, g.cls_obj, node)
+        self.frames.append(frame)
+        old_stack = self.stack
+        self.stack = old_stack + (g.fi.short,)
+        g.started = True
+        try:
+            self.exec_block(pre)
+            src = self.resolve(self.eval(loop.iter))
+            if isinstance(src, GenCallV):
+                src = self.generator_as_iter(src, node) or src
+            elem, ln = self.iter_element(src, loop.iter)
+            self.assign(loop.target, elem, loop)
+            self.nofork += 1
+            try:
+                self.exec_block(inner)
+                ev = self.eval(loop.body[-1].value.value)
+            finally:
+                self.nofork -= 1
+            self.event('comprehension', loop, ckind='generator-function', elem=ev, sources=[src], filtered=False)
+            return IterV(ev, src=src, filtered=False, desc=f'generator {g.fi.short}', length=ln)
+        finally:
+            self.frames.pop()
+            self.stack = old_stack
 
     def _for_generator(self, st, g):
         """for x in <generator call>: run the generator body; the loop body executes at every yield."""
